@@ -386,38 +386,81 @@ Proof.
   destruct (is_eof t); [|discriminate]. intros H. injection H as <-. eapply descend_get_wf; eauto.
 Qed.
 
-Lemma sim_step s o :
-  wf_state s -> d_step (abs_state s) o = (abs_state (fst (step s o)), abs_out (snd (step s o))).
+(* ------------------------------------------------------------------ the walk of descend_set does not depend on
+   the function applied at the anchor: same error / success, whatever is stored there *)
+Lemma descend_set_result_indep {A B} : forall es (fin : node -> node * A) (fin' : node -> node * B) n,
+    map_inr (fun _ => tt) (snd (descend_set es fin n)) = map_inr (fun _ => tt) (snd (descend_set es fin' n)).
 Proof.
-  intros [Hr Ha]. destruct (is_copy o) eqn:C; [|now apply sim_step_nocopy].
-  destruct s as [root aux]. cbn [st_root st_aux] in *.
-  destruct o; try discriminate C; unfold d_step, step, abs_state; cbn [ds_root ds_aux st_root st_aux fst snd].
-  - rewrite sim_get_node. destruct (get_node root d) as [e|n] eqn:G; cbn [map_inr].
-    + unfold d_copy. now rewrite (copy_abs aux NNull I).
-    + unfold d_copy. now rewrite (copy_abs aux n (get_node_wf root d n Hr G)).
-  - rewrite (sim_vset_subtree_then abs_out root d (fun a => (copy a aux, ok0))).
-    + destruct (vset_subtree_then root d _) as [r' [e|u]]; reflexivity.
-    + intros n. unfold d_copy. cbn [fst snd]. now rewrite (copy_abs n aux Ha).
+  induction es as [|e es IH]; intros fin fin' n.
+  - simpl. destruct (fin n), (fin' n); reflexivity.
+  - destruct e; simpl.
+    + destruct (fin _), (fin' _); reflexivity.
+    + destruct (lookup k (map_entries n)) as [c|].
+      * specialize (IH fin fin' c). destruct (descend_set es fin c), (descend_set es fin' c); exact IH.
+      * specialize (IH fin fin' NNull). destruct (descend_set es fin NNull), (descend_set es fin' NNull); exact IH.
+    + destruct (list_parts n) as [vec al]. destruct (fin _), (fin' _); reflexivity.
+    + destruct (list_parts n) as [vec al]. destruct (list_extend vec al i) as [[[v1 a1] j]|]; [|reflexivity].
+      specialize (IH fin fin' (nth j v1 NNull)).
+      destruct (descend_set es fin _), (descend_set es fin' _); exact IH.
+    + destruct (list_parts n) as [vec al]. destruct (list_insert vec al i) as [[[v1 a1] j]|]; [|reflexivity].
+      specialize (IH fin fin' (nth j v1 NNull)).
+      destruct (descend_set es fin _), (descend_set es fin' _); exact IH.
+    + destruct (list_parts n) as [vec al]. simpl.
+      specialize (IH fin fin' (nth (length vec) (vec ++ [NNull]) NNull)).
+      destruct (descend_set es fin _), (descend_set es fin' _); exact IH.
+    + destruct (fin n), (fin' n); reflexivity.
 Qed.
 
-Lemma sim_run : forall ops s,
-    wf_run s ops ->
-    d_run (abs_state s) ops = (abs_state (fst (run s ops)), map abs_out (snd (run s ops))).
+(* along a path of keys and in-range subscripts: the walk succeeds, there is one node [a] at which the
+   function is applied (the same for every function), and looking the path up afterwards finds what the
+   function stored *)
+Lemma descend_set_anchor {A} : forall es (fin : node -> node * A) n,
+    Forall plain_step es ->
+    exists a, snd (descend_set es (fun x => (x, x)) n) = inr a /\
+              descend_get es (fst (descend_set es fin n)) = inr (fst (fin a)) /\
+              snd (descend_set es fin n) = inr (snd (fin a)).
 Proof.
-  induction ops as [|o ops IH]; intros s H; [reflexivity|].
-  destruct H as [Hs Hr]. simpl. rewrite (sim_step s o Hs). destruct (step s o) as [s1 out]. cbn [fst snd] in *.
-  rewrite (IH s1 Hr). destruct (run s1 ops); reflexivity.
+  induction es as [|e es IH]; intros fin n H.
+  - exists n. simpl. destruct (fin n); repeat split; reflexivity.
+  - inversion H as [|? ? He Hes]; subst. destruct e; simpl in He; try contradiction.
+    + simpl. destruct (lookup k (map_entries n)) as [c|] eqn:L.
+      * destruct (IH fin c Hes) as [a [I0 [I1 I2]]]. exists a.
+        destruct (descend_set es (fun x => (x, x)) c) as [c0 r0]. destruct (descend_set es fin c) as [c' r]. simpl in *.
+        rewrite (lookup_update_same _ _ _ _ L). repeat split; assumption.
+      * destruct (IH fin NNull Hes) as [a [I0 [I1 I2]]]. exists a.
+        destruct (descend_set es (fun x => (x, x)) NNull) as [c0 r0]. destruct (descend_set es fin NNull) as [c' r]. simpl in *.
+        rewrite (lookup_app_new _ _ _ L). repeat split; assumption.
+    + simpl. destruct (list_parts n) as [vec al]. unfold list_extend.
+      replace (i <? 0)%Z with false by (symmetry; apply Z.ltb_ge; lia).
+      destruct (i <? Z.of_nat (length vec))%Z eqn:E.
+      * destruct (IH fin (nth (Z.to_nat i) vec NNull) Hes) as [a [I0 [I1 I2]]]. exists a.
+        destruct (descend_set es (fun x => (x, x)) _) as [c0 r0]. destruct (descend_set es fin _) as [c' r]. simpl in *.
+        replace (i <? 0)%Z with false by (symmetry; apply Z.ltb_ge; lia).
+        rewrite length_set_nth, E. apply Z.ltb_lt in E.
+        rewrite nth_error_set_nth by lia. repeat split; assumption.
+      * replace (i =? INT_MAX)%Z with false by (symmetry; apply Z.eqb_neq; lia).
+        apply Z.ltb_ge in E.
+        remember (vec ++ repeat NNull (S (Z.to_nat i) - length vec)) as vec1 eqn:Ev.
+        assert (Hlen : length vec1 = S (Z.to_nat i)).
+        { subst vec1. rewrite app_length, repeat_length. lia. }
+        destruct (IH fin (nth (Z.to_nat i) vec1 NNull) Hes) as [a [I0 [I1 I2]]]. exists a.
+        destruct (descend_set es (fun x => (x, x)) _) as [c0 r0]. destruct (descend_set es fin _) as [c' r].
+        cbn [fst snd] in *. cbn [descend_get].
+        replace (i <? 0)%Z with false by (symmetry; apply Z.ltb_ge; lia).
+        rewrite length_set_nth, Hlen.
+        replace (i <? Z.of_nat (S (Z.to_nat i)))%Z with true by (symmetry; apply Z.ltb_lt; lia).
+        rewrite nth_error_set_nth by lia. repeat split; assumption.
 Qed.
 
-(* non-vacuity: a script with sets, a delete, a copy out and a copy into a subtree *)
-Definition example_ops : list op :=
-  [OSet [97; 46; 98; 61; 120]%N; OSet [108; 91; 43; 93; 61; 121]%N; OSetSub [101; 123; 125]%N;
-   OCopyOut [46]%N; OCopyIn [99; 46; 100]%N; ODel [97; 46; 98]%N; OGet [99; 46; 100; 46; 108; 91; 48; 93]%N].
-Lemma wf_run_example : wf_run init_state example_ops.
+(* a look-up along a plain path composes *)
+Lemma descend_get_app : forall p q n,
+    Forall plain_step p ->
+    descend_get (p ++ q) n = match descend_get p n with inr m => descend_get q m | inl e => inl e end.
 Proof.
-  assert (N : forall l : list bytes, Forall (fun k => k <> []) l <-> forallb (fun k => negb (bytes_eqb k [])) l = true).
-  { intros l. rewrite forallb_forall, Forall_forall. split; intros H x Hx; specialize (H x Hx).
-    - destruct x; [congruence|reflexivity].
-    - destruct x; [discriminate|congruence]. }
-  vm_compute. repeat split; try lia; repeat constructor; simpl; intuition (try discriminate; try congruence).
+  induction p as [|e p IH]; intros q n H; [reflexivity|].
+  inversion H as [|? ? He Hp]; subst. destruct e; simpl in He; try contradiction; simpl.
+  - destruct n; try reflexivity. destruct (lookup k kv); [now apply IH|reflexivity].
+  - destruct n; try reflexivity. destruct (i <? 0)%Z; [reflexivity|].
+    destruct (i <? Z.of_nat (length vec))%Z; [|reflexivity].
+    destruct (nth_error vec (Z.to_nat i)); [now apply IH|reflexivity].
 Qed.
